@@ -31,6 +31,8 @@ CLAIMED = {
             "all values and views; eval mode: no write to arguments, parameters or buffers", "4-C13"),
     "C19": ("other", "contract-based deductive verification of the dtype contracts only (result dtype = input dtype, no dtype error on float64 and float32); numeric float32/float64 agreement is NOT decided by this family",
             "partial: dtype clauses proved for the elementwise transform classes; closeness of float32 to float64 results is listed as not decided", "4-C19"),
+    "C14": ("proof", "contract-based deductive verification: each life-cycle method of ActNorm / BatchNorm executed from every symbolic state and proved equal to the transition of the documented reference model (z3); induction over calls gives all histories",
+            "histories of any length; all batch values under the stated precondition (>= 2 items, non-zero variance)", "4-C14"),
 }
 REASON_TODO = "check not built yet in this session (the design in DESIGN.md section 4 applies; will be claimed when its contracts discharge)"
 props = [json.loads(l) for l in open(os.path.join(V, "properties.jsonl"))]
